@@ -2,8 +2,9 @@
 
    case   := g0 nsteps step*                       (tokens separated by single spaces)
    step   := P tree | R forests | N | V names forests | A valid names forests | I n tree^n | F forests | O | C | S b
-   forests:= n forest^n     forest := n tree^n     names := n hex^n
-   tree   := E nshex namehex na (namehex valuehex)^na nk tree^nk | T hex | X hex        (X = comment)
+   forests:= n forest^n | @id (defined by an earlier line "deff <id> <forests>")     forest := n tree^n     names := n hex^n
+   tree   := E nshex namehex na (namehex valuehex)^na nk tree^nk | T hex | X hex | #id  (X = comment; #id = a tree
+             defined by an earlier line "def <id> <tree>", which produces no output)
    hex    := hex of the bytes, "-" for the empty string
 
    output : per step, joined by " | ":
@@ -35,8 +36,11 @@ let next_int () = int_of_string (next ())
 let next_str () = explode (hexdecode (next ()))
 let rec times n f = if n <= 0 then [] else let x = f () in x :: times (n - 1) f
 
+let defs : (string, xml) Hashtbl.t = Hashtbl.create 97
+
 let rec tree () =
   match next () with
+  | t when String.length t > 1 && t.[0] = '#' -> Hashtbl.find defs (String.sub t 1 (String.length t - 1))
   | "E" ->
       let ns = next_str () in
       let name = next_str () in
@@ -49,7 +53,12 @@ let rec tree () =
   | "X" -> Comment (next_str ())
   | t -> failwith ("bad tree token " ^ t)
 let forest () = let n = next_int () in times n tree
-let forests () = let n = next_int () in times n forest
+(* forests defined by an earlier line "deff <id> <forests>" are named @<id> *)
+let fdefs : (string, xml list list) Hashtbl.t = Hashtbl.create 97
+let forests () =
+  let t = next () in
+  if String.length t > 0 && t.[0] = '@' then Hashtbl.find fdefs (String.sub t 1 (String.length t - 1))
+  else times (int_of_string t) forest
 let names () = let n = next_int () in times n next_str
 
 let counted_kind = function
@@ -137,6 +146,18 @@ let () =
   (try
      while true do
        let line = input_line ic in
+       if String.length line > 4 && String.sub line 0 4 = "def " then begin
+         (* "def <id> <tree>": a tree that the cases below name as #<id>; no output line *)
+         toks := Array.of_list (List.filter (fun s -> s <> "") (String.split_on_char ' ' line));
+         pos := 1;
+         let id = next () in
+         Hashtbl.replace defs id (tree ())
+       end else if String.length line > 5 && String.sub line 0 5 = "deff " then begin
+         toks := Array.of_list (List.filter (fun s -> s <> "") (String.split_on_char ' ' line));
+         pos := 1;
+         let id = next () in
+         Hashtbl.replace fdefs id (forests ())
+       end else
        (try print_endline (run_case line) with e -> print_endline ("MODEL-ERROR " ^ Printexc.to_string e))
      done
    with End_of_file -> ());
